@@ -9,11 +9,13 @@ CONSTANT ResultFile, MaxReport
 Results == ndJsonDeserialize(ResultFile)
 VARIABLES l, viol, cnt
 ovars == <<l, viol, cnt>>
-Names == {"C17_CursorAccepted", "C17_CursorStandsForSameQuery", "C17_CursorKeepsOptions", "Conf_FilterAccepted", "Conf_NextHandedOut"}
+Names == {"C17_ListDoesNotCrash", "C17_CursorAccepted", "C17_CursorStandsForSameQuery", "C17_CursorKeepsOptions", "Conf_FilterAccepted", "Conf_NextHandedOut"}
 
 Failing(r) ==
     LET T(name, ok) == IF ok THEN {} ELSE {name} o == r.obs IN
-    T("C17_CursorAccepted", o.hasNext => o.decoded)
+    \* a filter a list endpoint builds or accepts is answered or refused, it does not crash the store
+    T("C17_ListDoesNotCrash", ~(Len(o.err) >= 5 /\ SubSeq(o.err, 1, 5) = "panic"))
+    \cup T("C17_CursorAccepted", o.hasNext => o.decoded)
     \cup T("C17_CursorStandsForSameQuery", o.decoded => o.sameQuery)
     \cup T("C17_CursorKeepsOptions", o.decoded => o.sameOption)
     \cup T("Conf_FilterAccepted", o.accepted)
